@@ -45,6 +45,10 @@ class Pipe:
         except StopIteration:
             self.done = True
             return
+        except Exception as ex:  # noqa: BLE001
+            self.done = True
+            self.error = f"{type(ex).__name__}: {str(ex)[:100]}"
+            return
         if self.kind == "ser":
             impl.write_delimited(x, self.out)
         else:
@@ -54,7 +58,11 @@ class Pipe:
         while not self.done:
             self.step()
 
+    error = None
+
     def result(self):
+        if self.error:
+            return ("raised", self.error)
         return self.out.getvalue() if self.kind == "ser" else self.items
 
 
